@@ -304,6 +304,13 @@ def view_ctx(ctx, policy):
                 from rules_clone import copiers
                 protect = set(movers(ctx)) | set(takers(ctx)) | {b.path for b, _, _ in replacer_sites(ctx)} | set(ret_is_some_fns(ctx)) \
                     | {b.path for b, _ in installs_left(ctx)} | set(hash_fns(ctx)) | set(hasher_makers(ctx)) | set(copiers(ctx))
+                # ... and the functions that build both-tables iterators or entry handles (the delegation rules start from them)
+                for b in ctx.facts.bodies.values():
+                    for loc, st in b.all_assigns():
+                        rv = st["rv"]
+                        if rv["k"] == "aggregate" and rv.get("agg") == "adt" and (rv.get("adt") in ctx.roles.composites or rv.get("adt") in ctx.roles.handles
+                                                                                   or (rv.get("adt") or "").startswith(ctx.facts.crate + "::external_trait_impls::rayon::raw::")):
+                            protect.add(b.path)
             f2, done = inline.build_view(ctx.facts, policy, roles=ctx.roles, protect=protect)
         except Exception:
             import traceback
